@@ -44,6 +44,10 @@ Relation clauses (workload level, from returned values of calls the hook did not
   I   d(re-drawing of t, x) == d(t, x)
   T   d(a,c) <= d(a,b) + d(b,c)
   Z, I, T for the two weighted distances only among trees without missing lengths.
+  Z'  the re-drawing made by the library itself (workload 'seedmove'): an unrooted tree, a harness-built twin, one to
+      three of reseed_at / to_outgroup_position / reroot_at_edge(+ is_rooted = False); every primary distance between
+      twin and moved tree is 0 in both orders.  Lengths complete, or half of the basal edge missing (nothing is then
+      missing from the unrooted tree that is compared).
 
 Soundness limits: with missing non-root lengths only S is judged for the weighted distances (the statement does not
 say which value; whether a returned value equals "None counts as 0" is recorded as a note); rooting states are never
